@@ -518,7 +518,26 @@ Theorem tie_C13_lines_forward_finish : forall (o : opt) (sin out lb : bytes) (li
   end.
 Proof. exact tie_lines_forward_finish. Qed.
 
+(** C05 over the translated one-line-at-a-time reader, the whole of it: for an input whose lines are valid
+    UTF-8 (with and without their terminator alike) and an ascending request that resolves on it, it prints
+    the selection of the statement *)
+Theorem tie_C05_forward_reader : forall (o : opt) (input : bytes) (x : bytes),
+  records (o_eol o) input <> [] -> items (o_bounds o) <> [] ->
+  fwd_ok 1 (Z.of_nat (length (records (o_eol o) input))) (items (o_bounds o)) -> last_marked (items (o_bounds o)) ->
+  Forall (fun l => utf8_valid l = true) (records (o_eol o) input) ->
+  (forall l, In l (records (o_eol o) input) -> utf8_valid (l ++ [o_eol o]) = utf8_valid l) ->
+  Z.of_nat (length (items (o_bounds o))) + 1 <= usize_max -> Z.of_nat (length input) + 1 <= RsPrelude.i32_max ->
+  spec_items (records (o_eol o) input) (o_fallback o) (o_join o) [o_eol o] (items (o_bounds o)) = Some x ->
+  gen_lines_forward input o = Ret (Some tt, x ++ [o_eol o]).
+Proof.
+  intros o input x Hl Hb Hok Hlm Hu Hu2 Hn Hlen Hx.
+  destruct (C05_forward o (records (o_eol o) input) (items (o_bounds o)) Hl Hb Hok Hlm Hu) as (x' & E1 & E2).
+  rewrite Hx in E1. injection E1 as <-.
+  pose proof (tie_lines_forward_whole o input Hb Hn Hlen Hu2) as T. rewrite E2 in T. exact T.
+Qed.
+
 Print Assumptions tie_try_into_range_spec.
+Print Assumptions tie_C05_forward_reader.
 Print Assumptions tie_C13_lines_forward_finish.
 Print Assumptions tie_C19_last_bound_invariant.
 Print Assumptions tie_C06_whole_byte_mode.
